@@ -1,4 +1,4 @@
-"""C13 -- a long-lived project answers like a fresh one (clauses R13.1-R13.8)."""
+"""C13 -- a long-lived project answers like a fresh one (clauses R13.1-R13.9)."""
 from __future__ import annotations
 
 import ast
@@ -16,7 +16,7 @@ EXPLANATION = (
     "cache_observers.  R13.4: FilteredResourceObserver refreshes its change indicator after each reported event.  "
     "R13.5: a handler registered on a *raw* observer that indexes per file either handles folder events or "
     "invalidates wholesale.  R13.6: in the filtered observer every reported resource is the one that was tested "
-    "(guard/action agreement), no report is control-dependent on the failure of another resource's watched-test, and a move covers the parents of both ends.  R13.7 (=R09.7): every element entering the cached file listing is dominated by a negative is_ignored test of that element.  R13.8: the not-found path of a module lookup stores nothing into the concluded-data cell.  Sufficiency of invalidation for every query is not decided."
+    "(guard/action agreement), no report is control-dependent on the failure of another resource's watched-test, and a move covers the parents of both ends.  R13.7 (=R09.7): every element entering the cached file listing is dominated by a negative is_ignored test of that element.  R13.8: the not-found path of a module lookup stores nothing into the concluded-data cell.  R13.9: object-lifetime caches (saveit) in the object model never hold values computed from concluded data.  Sufficiency of invalidation for every query is not decided."
 )
 ASSUMPTIONS = ["required event sets per cache are a hand-confirmed table (sa/rules/c13.py REQUIRED) with reasons"]
 
@@ -435,3 +435,42 @@ def check(ctx, res) -> None:
                     "remembered, and since creating the missing module invalidates nothing, the long-lived project keeps the import unresolved while a "
                     "freshly opened project resolves it", function=f.qualname)
     res.floor("R13.8", "module lookups with a not-found handler next to a cache cell", n138, 1)
+
+    # ---- R13.9 object-lifetime caches (saveit/cacheit/cached) may only hold what depends on the object's own source.
+    # Attribute tables that include names of OTHER modules (star imports, base classes, __init__ names) live in
+    # concluded-data cells precisely so that forget_all_data() can reset them; a saveit copy of such a table is never reset.
+    CONCLUDED = {"_get_concluded_attributes", "_get_concluded_data", "get_attributes", "get_attribute", "_get_init_names",
+                 "get_superclasses", "_get_bases", "star_imports"}
+    n139 = 0
+    for q, c in sorted(idx.classes.items()):
+        if c.unit.modname not in ("rope.base.pyobjects", "rope.base.pyobjectsdef", "rope.base.pyscopes", "rope.base.pynames", "rope.base.pynamesdef"):
+            continue
+        for mname, m in sorted(c.methods.items()):
+            if not any(d.split(".")[-1] in ("saveit", "cacheit", "cached") for d in m.decorator_names()):
+                continue
+            n139 += 1
+            seen, todo, hit = set(), [m], None
+            while todo and hit is None:
+                g = todo.pop()
+                if g.qualname in seen:
+                    continue
+                seen.add(g.qualname)
+                for cc in calls_in(g.node):
+                    cn = call_name(cc)
+                    if cn in CONCLUDED and is_self_attr(cc.func):
+                        hit = (g, cc)
+                        break
+                    if is_self_attr(cc.func):
+                        h = idx.find_method(q, cn)
+                        if h is not None:
+                            todo.append(h)
+                for x in ast.walk(g.node):
+                    if hit is None and is_self_attr(x) and x.attr in CONCLUDED and x.attr == "star_imports":
+                        hit = (g, x)
+            res.add("R13.9", f"{c.name}.{mname}|cache-holds-own-data-only", hit is None, m.where,
+                    "the cached value depends on the object's own source only" if hit is None else
+                    f"{c.name}.{mname} is cached for the lifetime of the object (@{[d for d in m.decorator_names()][0]}) but is computed from "
+                    f"concluded data ({ast.unparse(hit[1])[:50]} in {hit[0].name}): when another module changes, forget_all_data() resets the concluded cells "
+                    "but not this copy, so the long-lived project keeps answering with the old names while a fresh project sees the new ones",
+                    function=m.qualname)
+    res.floor("R13.9", "object-lifetime caches in the object model", n139, 4)
